@@ -34,7 +34,9 @@ ASSUMPTIONS = c18.ASSUMPTIONS + [
     "produce) are covered by the sampled runs only",
 ]
 RULE = ("random small contents trees over random pre-existing roots (generators of C18) and re-merges (the root holds an earlier build of the "
-        "same package: same data and mtime with other owner and/or mode, same-size new data, other mtime, other type, dropped and new entries) and upgrades of live programs; pre-existing files really carry "
+        "same package: same data and mtime with other owner and/or mode, same-size new data, other mtime, other type, dropped and new entries), upgrades of live programs and "
+        "'alternatives'-style roots (names that are symlinks to existing files outside the contents set, replaced by the new build); the target directory is given as part "
+        "of the locations, as the canonical absolute offset, as an offset relative to the working directory (from the parent, a sibling, the root itself) or as a non-normalised absolute path; pre-existing files really carry "
         "set-uid/set-gid/sticky/empty permission bits and have further hard-link names outside the contents set (own directory, top level, sibling); for each, every mutating call k of the real merge "
         "is a crash point (fresh identical root, killed before call k), plus half-write crashes and EIO injection at every k; "
         "non-trivial = a crash point of a merge that replaces at least one pre-existing non-directory path and lies strictly inside the merge")
@@ -129,6 +131,36 @@ def gen_upgrade(rng):
     return with_other_names(rng, pre, ents, p_mode=0.0, p_link=0.7), ents
 
 
+def gen_relink(rng):
+    """a live root in the 'alternatives' style: names that are symlinks to versioned programs next to them or to shared
+    defaults elsewhere — targets that exist and belong to somebody else; the new build replaces such links by regular
+    files, or by links to a new version it ships, and leaves some alone"""
+    top = rng.choice([[], ["etc"], ["usr", "bin"]])
+    pre = [_d(top[:i], mode=0o755) for i in range(1, len(top) + 1)] + [_d(["share"], mode=0o755)]
+    ents = [_e(top[:i], "dir", mode=0o755, mtime=1111) for i in range(1, len(top) + 1)]
+    for nm in rng.sample(["python", "editor", "app.conf", "x y", "cc"], rng.randint(1, 3)):
+        uid, gid = c18.gen_owner(rng)
+        if rng.random() < 0.5:
+            tp, target = top + [nm + "-1.0"], nm + "-1.0"
+        else:
+            tp, target = ["share", nm + ".default"], "../" * len(top) + "share/" + nm + ".default"
+        pre.append(_f(tp, c18.gen_data(rng) or "6f6c64", mode=rng.choice([0o755, 0o644, 0o4755]), uid=uid, gid=gid, mtime=rng.choice([5, 1000])))
+        pre.append(_s(top + [nm], target))
+        r = rng.random()
+        if r < 0.45:
+            ents.append(_e(top + [nm], "reg", data=c18.gen_data(rng) or "6e6577", src=rng.choice(["mem", "file"]), mode=rng.choice([0o755, 0o600])))
+        elif r < 0.85:
+            ents.append(_e(top + [nm], "sym", target=nm + "-2.0"))
+            ents.append(_e(top + [nm + "-2.0"], "reg", data=c18.gen_data(rng) or "6e6577", mode=0o755))
+        elif r < 0.92:
+            ents.append(_e(top + [nm], "fifo"))
+    if not any(e["k"] != "dir" for e in ents):
+        ents.append(_e(top + ["readme"], "reg"))
+    rng.shuffle(ents)
+    ents.sort(key=lambda e: e["k"] != "dir")
+    return pre, ents
+
+
 CORPUS = [
     # replace a file, a symlink and a fifo through their '#new' siblings; create a new file next to them
     ([_d(["d"]), _f(["d", "f"], "6f6c646f6c64"), _s(["d", "s"], "f"), dict(_f(["d", "p"]), k="fifo")],
@@ -174,6 +206,15 @@ CORPUS += [
 ]
 
 
+# the target directory named relative to the working directory; entries replace live symlinks whose targets (a default
+# configuration file, a versioned program) exist and are not part of the merge
+_LINKS_PRE = [_d(["etc"]), _d(["share"]), _f(["share", "default.conf"], "64656661756c74"), _s(["etc", "app.conf"], "../share/default.conf"),
+              _d(["bin"]), _f(["bin", "python3.11"], "33313131", mode=0o755), _s(["bin", "python"], "python3.11")]
+_LINKS_ENTS = [_e(["etc"], "dir"), _e(["etc", "app.conf"], "reg", data="6e6577206e6577"), _e(["bin"], "dir"),
+               _e(["bin", "python"], "sym", target="python3.12"), _e(["bin", "python3.12"], "reg", mode=0o755)]
+CORPUS += [(_LINKS_PRE, _LINKS_ENTS, off) for off in (True, "rel", "rel-here", "rel-up", "dslash")]
+
+
 # two-step cases: (pre, contents of the interrupted merge, offset, contents of the complete merge that follows)
 SEQ_CORPUS = [
     # an upgrade turns a library into a symlink to a file of the same upgrade, is interrupted, then is rolled back
@@ -191,6 +232,55 @@ SEQ_CORPUS = [
 ]
 
 
+# how the target directory is handed to merge_contents: False = no offset argument (the locations carry the root),
+# True = offset = the root's canonical absolute path, or one of these spellings of the offset: relative to the working
+# directory of the process (`merge_contents(cset, offset="image")` from a build directory; from inside the root: "."),
+# or absolute but not normalised
+OFFSETS = {
+    "rel": ("base", "root"),            # cwd = the directory that holds the root
+    "rel-dot": ("base", "./root/"),
+    "rel-up": ("tmp", "../root"),       # cwd = a sibling directory
+    "rel-here": ("root", "."),          # cwd = the root itself
+    "dslash": (None, "//root"),         # <base>//root
+}
+SCALE = float(os.environ.get("VERIF_C19_SCALE", "1"))     # development only: fraction of the random budget
+
+
+class offset_of:
+    """context manager: the working directory the spelling needs; .kw = keyword arguments for merge_contents,
+    .prefix = location prefix for make_cset"""
+
+    def __init__(self, sb, off):
+        self.cwd, self.prefix, self.kw = None, "", {}
+        if off is False:
+            self.prefix = sb.root
+        elif off is True:
+            self.kw = {"offset": sb.root}
+        else:
+            where, spelled = OFFSETS[off]
+            if where is None:
+                self.kw = {"offset": sb.base + spelled}
+            else:
+                self.cwd = {"base": sb.base, "tmp": sb.tmp, "root": sb.root}[where]
+                if not os.path.isdir(self.cwd):             # the root does not exist yet
+                    self.cwd, spelled = sb.base, "root"
+                self.kw = {"offset": spelled}
+
+    def __enter__(self):
+        self.saved = os.getcwd()
+        if self.cwd is not None:
+            os.chdir(self.cwd)
+        return self
+
+    def __exit__(self, *a):
+        os.chdir(self.saved)
+
+
+def gen_offset(rng):
+    r = rng.random()
+    return True if r < 0.3 else False if r < 0.55 else rng.choice(sorted(OFFSETS))
+
+
 def run_once(pre, ents, off, crash_at=None, eio_at=None, half=False):
     sb = Sandbox()
     try:
@@ -199,21 +289,19 @@ def run_once(pre, ents, off, crash_at=None, eio_at=None, half=False):
             if pre is not None:
                 sb.build(pre)
             pre_snap = snapshot(sb.root)
-            if off:
-                cset, kw = make_cset(sb, ents), {"offset": sb.root}
-            else:
-                cset, kw = make_cset(sb, ents, prefix=sb.root), {}
-            from pkgcore.fs import ops
-            exc = None
-            rec = Recorder(sb.root, crash_at=crash_at, eio_at=eio_at)
-            rec.half_write = half
-            with rec:
-                try:
-                    ops.merge_contents(cset, **kw)
-                except Crash:
-                    exc = "crash"
-                except Exception as e:  # noqa: BLE001
-                    exc = e
+            with offset_of(sb, off) as o:
+                cset, kw = make_cset(sb, ents, prefix=o.prefix), o.kw
+                from pkgcore.fs import ops
+                exc = None
+                rec = Recorder(sb.root, crash_at=crash_at, eio_at=eio_at)
+                rec.half_write = half
+                with rec:
+                    try:
+                        ops.merge_contents(cset, **kw)
+                    except Crash:
+                        exc = "crash"
+                    except Exception as e:  # noqa: BLE001
+                        exc = e
             post = snapshot(sb.root)
         finally:
             os.umask(um)
@@ -232,21 +320,22 @@ def run_then_remerge(pre, ents, off, k, ents2):
             from pkgcore.fs import ops
             if pre is not None:
                 sb.build(pre)
-            kw = {"offset": sb.root} if off else {}
-            with Recorder(sb.root, crash_at=k):
-                try:
-                    ops.merge_contents(make_cset(sb, ents, prefix="" if off else sb.root), **kw)
-                except Crash:
-                    pass
-                except Exception:  # noqa: BLE001
-                    pass
-            mid = snapshot(sb.root)
-            exc = None
-            with Recorder(sb.root) as rec:
-                try:
-                    ops.merge_contents(make_cset(sb, ents2, prefix="" if off else sb.root), **kw)
-                except Exception as e:  # noqa: BLE001
-                    exc = e
+            with offset_of(sb, off) as o:
+                kw = o.kw
+                with Recorder(sb.root, crash_at=k):
+                    try:
+                        ops.merge_contents(make_cset(sb, ents, prefix=o.prefix), **kw)
+                    except Crash:
+                        pass
+                    except Exception:  # noqa: BLE001
+                        pass
+                mid = snapshot(sb.root)
+                exc = None
+                with Recorder(sb.root) as rec:
+                    try:
+                        ops.merge_contents(make_cset(sb, ents2, prefix=o.prefix), **kw)
+                    except Exception as e:  # noqa: BLE001
+                        exc = e
             post = snapshot(sb.root)
         finally:
             os.umask(um)
@@ -260,13 +349,17 @@ def run(ctx):
     cases = [(pre, ents, off, "corpus") for pre, ents, off in CORPUS] + \
             [(pre, ents, off, ("corpus-2step", ents2)) for pre, ents, off, ents2 in SEQ_CORPUS]
     if ctx.replay_cases:
-        cases = [(c["pre"], c["entries"], c["offset"], "replay") for c in ctx.replay_cases if "entries" in c] + cases
-    for _ in range(ctx.n(60, 1600)):
+        cases = [(c["pre"], c["entries"], c["offset"], "replay") for c in map(c18.redangle, ctx.replay_cases) if "entries" in c] + cases
+    for _ in range(int(ctx.n(60, 1600) * SCALE)):
         r = rng.random()
         if r < 0.15:
             # upgrade of live programs: special permission bits, other names outside the contents set
             pre, ents = gen_upgrade(rng)
-            cases.append((pre, ents, rng.random() < 0.5, "upgrade"))
+            cases.append((pre, ents, gen_offset(rng), "upgrade"))
+            continue
+        if r < 0.27:
+            pre, ents = gen_relink(rng)
+            cases.append((pre, ents, gen_offset(rng), "relink"))
             continue
         if r < 0.55:
             # re-merge: the root already holds an earlier build (same data and mtime, other owner/mode, …)
@@ -275,14 +368,14 @@ def run(ctx):
                 ents = ents[:6]
                 if rng.random() < 0.5:
                     pre = with_other_names(rng, pre, ents, p_mode=0.2)
-                cases.append((pre, ents, rng.random() < 0.5, "remerge"))
+                cases.append((pre, ents, gen_offset(rng), "remerge"))
             continue
         pre = gen_pre(rng, size=rng.randint(1, 6))
         ents = gen_entries(rng, pre, wellformed=rng.random() < 0.9)[: rng.randint(1, 5)]
         if ents:
             if rng.random() < 0.5:
                 pre = with_other_names(rng, pre, ents)
-            cases.append((pre, ents, rng.random() < 0.5, "random"))
+            cases.append((pre, ents, gen_offset(rng), "random"))
     reqs, runs = [], []
     for pre, ents, off, origin in cases:
         origin_second = None
@@ -296,7 +389,7 @@ def run(ctx):
         literal = not has_symlinked_ancestor(full["pre"], ents)
         info = {"case": {"pre": pre, "entries": ents, "offset": off, "origin": origin}, "full": full, "prej": prej, "npre": npre,
                 "entj": entj, "literal": literal, "points": [], "first_req": len(reqs)}
-        reqs.append({"cmd": "c19.crash", "env": env_json(), "offset": off, "fs": prej, "entries": entj})
+        reqs.append({"cmd": "c19.crash", "env": env_json(), "offset": bool(off), "fs": prej, "entries": entj})
         if not literal:
             runs.append(info)
             ctx.count("skipped_symlinked_ancestor_case")
@@ -363,6 +456,14 @@ def run(ctx):
                 ctx.count("replaced_live_file" + ("_setid" if nd["mode"] & 0o6000 else "_sticky" if nd["mode"] & 0o1000 else "_mode0" if nd["mode"] == 0 else "")
                           + ("_with_name_outside_contents" if any(q not in ent_locs for q in names_of[nd["id"]]) else ""))
         ctx.count("origin_" + str(case["origin"]))
+        ctx.count("offset_" + str(case["offset"]))
+        for e in case["entries"]:
+            nd = full["pre"].get(tuple(e["p"]))
+            if e["k"] != "dir" and nd is not None and nd["k"] == "sym":
+                t = os.path.normpath("/" + "/".join(e["p"][:-1]) + "/" + nd["target"]).strip("/")
+                tn = full["pre"].get(tuple(t.split("/"))) if t else None
+                ctx.count("replaced_live_symlink" + ("_to_existing_path_outside_contents" if tn is not None and tuple(t.split("/")) not in ent_locs else "")
+                          + ("_relative_offset" if str(case["offset"]).startswith("rel") else ""))
         rt = model_trace(full["ops"])
         model_ok = m["result"] == res and rt == m["trace"]
         if not model_ok:
